@@ -10,7 +10,6 @@
 package main
 
 import (
-	"fmt"
 	"os"
 	"strings"
 	"sync"
@@ -98,7 +97,7 @@ func one(h *harness.H, layer string, c int) {
 	e.CloseWriters()
 	e.DoReads(uint64(c)*104729+3, 10)
 	e.FullChecks()
-	if err := e.Reopen(); err != nil {
+	if err := e.Reopen(); err != nil && !e.Tainted {
 		h.Violation(layer, c, "c04:reopen-failed", "close+reopen failed after a legal script: "+err.Error(), witness{Script: s})
 	} else {
 		e.DoReads(uint64(c)*104729+3, 10)
@@ -116,28 +115,12 @@ func one(h *harness.H, layer string, c int) {
 		h.Count("scripts_stopped_by_engine_error", 1)
 		h.Seen("engine_errors", trim(e.UnexpectedErr))
 	}
-	for _, v := range e.Violations {
-		kind := v
-		if i := strings.Index(v, ":"); i > 0 {
-			kind = v[:i]
-		}
-		h.Violation(layer, c, "c04:"+kind, v, witness{Script: s, Note: v})
+	for _, f := range e.Classify("c04") {
+		h.Violation(layer, c, f.Sig, f.What, witness{Script: s, Mismatch: f.Mismatch, Note: f.What})
 	}
-	for i := range e.Mismatches {
-		m := e.Mismatches[i]
-		kind := "fixed"
-		if cskit.IsVar(m.DT) {
-			kind = "var"
-		}
-		phase := "live"
-		if m.Reopened {
-			phase = "reopened"
-		}
-		sig := fmt.Sprintf("c04:%s:%s:%s:%s", m.Class, m.Mode, kind, phase)
-		if m.Class == "error" {
-			sig = fmt.Sprintf("c04:error:%s:%s", m.Mode, letters(m.Detail))
-		}
-		h.Violation(layer, c, sig, fmt.Sprintf("after deletes, read of channel %d (%s) over [%d,%d) via %s returned %d samples, model has %d: %s", m.Key, m.DT, m.A, m.B, m.Mode, m.Got, m.Want, m.Detail), witness{Script: s, Mismatch: &m})
+	h.Count("deletes_refused_vacuous", e.DeletesRefusedVacuous)
+	if e.DeleteTags != "" {
+		h.Count("scripts_with_known_finding_precondition", 1)
 	}
 	if e.DeletedSamples > 0 && e.SamplesCompared > 0 {
 		h.Distinct(s.Shape())
@@ -153,22 +136,6 @@ func delOps(s *cskit.Script) []cskit.Op {
 		}
 	}
 	return out
-}
-
-func letters(s string) string {
-	out := make([]rune, 0, 48)
-	for _, r := range s {
-		if len(out) >= 48 {
-			break
-		}
-		switch {
-		case r >= 'a' && r <= 'z', r >= 'A' && r <= 'Z':
-			out = append(out, r)
-		case r == ' ' && len(out) > 0 && out[len(out)-1] != '-':
-			out = append(out, '-')
-		}
-	}
-	return string(out)
 }
 
 func trim(s string) string {
